@@ -28,6 +28,7 @@ def run(ctx, R, tier):
     c08.sweep(F, R)
     c08.drops(F, R)
     c08.reserve(F, R)
+    c08.storage_loops(F, R)
     tb = F.body(TRACK + '::process')
     if not R.check(tb is not None, 'B.C15.nolistener', 'anchor', 'Track::process not found'):
         return
